@@ -18,6 +18,8 @@
 #include "jls/cdef.h"
 #include "jls/ec.h"
 #include "jls/log.h"
+#include <stdbool.h>
+#include <stdint.h>
 #include <stdlib.h>
 #include <string.h>
 
@@ -92,6 +94,12 @@ int32_t jls_buf_realloc(struct jls_buf_s * self, size_t size) {
         alloc_size *= 2;
     }
 
+    // cur and end point into the buffer: keep their offsets across the move
+    uintptr_t base = (uintptr_t) self->start;
+    uintptr_t cur_offset = ((uintptr_t) self->cur) - base;
+    uintptr_t end_offset = ((uintptr_t) self->end) - base;
+    bool cur_valid = (cur_offset <= self->alloc_size);
+    bool end_valid = (end_offset <= self->alloc_size);
     uint8_t * ptr = realloc(self->start, alloc_size);
     if (NULL == ptr) {
         JLS_LOGE("jls_buf_realloc out of memory");
@@ -99,6 +107,12 @@ int32_t jls_buf_realloc(struct jls_buf_s * self, size_t size) {
     }
     self->start = ptr;
     self->alloc_size = alloc_size;
+    if (cur_valid) {
+        self->cur = ptr + cur_offset;
+    }
+    if (end_valid) {
+        self->end = ptr + end_offset;
+    }
     return 0;
 }
 
